@@ -12,6 +12,9 @@ META = {
     "level": "Decides: (R1) upgrade_resolver wires source repos before installed ones, highest-first package sorting and the prefer-highest strategy; min_install_resolver wires installed repos first and the reuse strategy, whose installed-package group precedes the source group; (R2) the comparators order by version first and on equal versions put the installed (livefs) package first, given the reverse= flag of their sort call; (R3) nothing in the repository-ordering pipeline goes through a set (whose iteration order is not reproducible); (R4) repository wrappers forward the caller's keyword arguments (the sorter) to the wrapped repository; (R5) an atom is only memoised as globally insoluble by a lookup that was not limited to installed packages. Does NOT decide which version a concrete resolution picks.",
     "note": "snakeoil iter_sort / sort_cmp are trusted base: stable, comparator sign convention of cmp(); reverse=True puts larger first",
 }
+META["technique"] += "; " + 'alias-capture rule (state handed out by reference in __init__ is never rebound); sibling agreement on the build-time dependency classes'
+META["level"] += " Added after the second round of independent changes: " + '(R6) merge_plan.state, whose vdb_filter is captured by the installed-package filter in __init__, is never rebound; (R7) check_for_cycles treats exactly the classes _rec_add_atom skips for built packages as build-time.'
+META["technique"] += "; " + 'generic pack G on the anchored files (optional-flag shift, closures outliving a loop iteration, single-pass iterables consumed twice, %-templates built from data, in-place writes to class-level / memoised objects, generators mutating what they yielded, memo keys that are projections)'
 
 
 def call_shape(c):
